@@ -665,7 +665,13 @@ func (g asmGen) expectSuccess() bool {
 	consistent := true
 	for _, s := range c.seeds {
 		if s.src == "T" {
-			return false // a seed that changes while it is read: covered by the safety half only
+			// a seed that changes while it is read: only regenerate can be expected to cope (it falls
+			// back to the store when the bytes written do not hash to the chunk ID)
+			if c.act != "regen" {
+				return false
+			}
+			consistent = false
+			continue
 		}
 		k, _ := strconv.Atoi(s.src)
 		if k >= len(c.files) { // no such file: skipping works, regenerating its index cannot
@@ -751,7 +757,15 @@ func runC01(cfg Config) {
 			}
 		case "err":
 			if g.expectSuccess() {
-				monitor("the store holds every chunk and the seeds are static and consistent (or skip/regenerate was chosen), yet assembly failed: "+r.err, line)
+				d := Disagreement{Kind: "monitor", Case: line, What: "the store holds every chunk and the seeds are static and consistent (or skip/regenerate was chosen), yet assembly failed: " + r.err}
+				alias := false
+				for _, s := range g.c.seeds {
+					alias = alias || s.src == "T"
+				}
+				if alias && g.c.sr && g.c.act == "regen" && strings.Contains(r.err, "invalid argument") {
+					d.Sig = "assemble.alias-seed.clone-einval"
+				}
+				rep.Disagree(d)
 			}
 		}
 	}
